@@ -4,7 +4,7 @@ import hashlib
 from hypothesis import strategies as st
 
 from vf import gen_tx
-from vf.core import Fails, Target, attempt, bx, hx, raised, attempt_owned
+from vf.core import Fails, Target, attempt, bx, hx, raised, attempt_owned, attempt_twice
 from vf.ref import scriptref as sr
 
 PROPERTY = "C13"
@@ -73,7 +73,7 @@ def check_asm(case):
     if not ref:
         cls.add("empty-script")
     want = sr.assemble(ref)
-    got = attempt(bits.script.script, args)
+    got = attempt_twice(f, f"asm/second-call-with-same-list-differs/{worst}", bits.script.script, args)
     if not f.expect(not raised(got) and got == want, f"asm/ne-reference/{worst}", repr(got)[:160]):
         return sorted(cls), f
     dec = attempt_owned(f, f"disasm/differs-after-caller-edited-earlier-result/{worst}", bits.script.decode_script, got)
